@@ -21,9 +21,10 @@ def parseRec (v : String) : Rec :=
   else if v == "mis" || v == "mis2" then .miskeyed
   else if v == "bad" then .value ⟨7, 1⟩ false
   else if v.startsWith "r" then .value ⟨(String.ofList (v.toList.drop 1)).toNat!, 0⟩ true
+  else if v.startsWith "s" then .value ⟨(String.ofList (v.toList.drop 1)).toNat!, 2⟩ true
   else .none
 
-def showVal (v : Val) : String := s!"{v.rank}:ok"
+def showVal (v : Val) : String := if v.payload == 2 then s!"{v.rank}:alt" else s!"{v.rank}:ok"
 
 /-- process one concrete release token such as `G5:ok` -/
 def release (st : St) (tok : String) : St :=
